@@ -26,7 +26,7 @@ func init() {
 			"(f) reset_relays empties the inherited relays before they are merged, a disabled proposer-relay is not kept, unknown addresses are generated through the tier chain, unmentioned inherited relays are kept; " +
 			"(g) the version dispatch has arms for the unversioned and version-2 documents and an error default; (h) the top-level fee recipient and gas limit fall back to Vouch's own values when absent; " +
 			"(i) for every JSON shadow struct the fields written by MarshalJSON are the fields read by UnmarshalJSON and unit scalings are inverse pairs (Milliseconds()/x time.Millisecond, Div(weiPerETH)/Mul(weiPerETH)). " +
-			"Added with the third seeding round: (k) a legacy builder's relay list is read only under its own Enabled flag; (l) a resolver that remembers results keys them by every parameter it uses; (b) also accepts a first-present helper called with the tiers in precedence order. Added with the fourth seeding round: (m) the proposers list keeps document order; (n) tiers are written least specific first onto a relay object. Added with the fifth seeding round: (f, extended) every relay inherited from the fallback is recorded in the result; (o) nothing is copied or stored through a pointer-typed field of a relay result. Added with the sixth seeding round and the false-alarm regression: (p) numbers in the configuration documents are parsed with base 10; (q) every return of the account-naming helper is the joined wallet/account form; (g) also recognises a dispatch table keyed by version. NOT decided: the value-level lattice for arbitrary documents, regexp semantics, round-trip equality of meaning.",
+			"Added with the third seeding round: (k) a legacy builder's relay list is read only under its own Enabled flag; (l) a resolver that remembers results keys them by every parameter it uses; (b) also accepts a first-present helper called with the tiers in precedence order. Added with the fourth seeding round: (m) the proposers list keeps document order; (n) tiers are written least specific first onto a relay object. Added with the fifth seeding round: (f, extended) every relay inherited from the fallback is recorded in the result; (o) nothing is copied or stored through a pointer-typed field of a relay result. Added with the sixth seeding round and the false-alarm regression: (p) numbers in the configuration documents are parsed with base 10; (q) every return of the account-naming helper is the joined wallet/account form; (g) also recognises a dispatch table keyed by version. Added with the ninth seeding round: (r) the factor between ether (as configured) and wei (as compared) is 10^18 wherever it is declared. NOT decided: the value-level lattice for arbitrary documents, regexp semantics, round-trip equality of meaning.",
 		Technique: "guard/edge-deletion queries keyed by access path (tested-X-used-X, tier precedence), string-shape analysis, writer/reader field-table agreement of sibling marshalers, loop-exit path queries",
 		Rule:      "one obligation per dereference (a), per tiered store (b), per options call (c), per match site (d), per compiled specifier (e), per relay-set operation (f), per version arm (g), per fallback use (h), per marshaler pair (i)",
 	})
